@@ -14,7 +14,7 @@ BUILTIN_NAMES = {
     'repr', 'id', 'open', 'zip', 'enumerate', 'issubclass', 'super', 'set', 'frozenset', 'property',
     'staticmethod', 'classmethod', 'any', 'all', 'divmod', 'round',
 }
-SPEC_FUNCS = {'implies', 'len_of', 'pulled', 'maxidx', 'len_called', 'failed_probe', 'neg_probes',
+SPEC_FUNCS = {'mstart', 'mend', 'mgroup0', 'implies', 'len_of', 'pulled', 'maxidx', 'len_called', 'failed_probe', 'neg_probes',
               'imax', 'imin', 'is_none', 'iff', 'stack_unchanged', 'level_of', 'field',
               'stack_extra', 'same', 'truthy_', 'isinst', 'strlen', 'contains_', 'trace_calls',
               'data_len', 'finished', 'iter_pos', 'iter_len', 'iter_elem', 'list_prefix_of_iter', 'val_is', 'pulled_initial'}
@@ -760,6 +760,9 @@ PSEUDO_OBJ_ATTR = {'pyobj:StringIO': _stringio_attr}
 
 
 # ------------------------------------------------------------------ regular expressions (library boundary)
+ABSTRACT_TAG_MATCHER = '<<abstract tag matcher>>'
+
+
 def _re_exec(E, args, kwargs, node, how):
     """pattern.match / pattern.search.  Concrete text: CPython's own ``re`` decides (exact).  Symbolic text: the generic
     assumed contract -- either None, or a match with pos <= start <= end <= len(text) and group(0) == text[start:end]
@@ -779,7 +782,8 @@ def _re_exec(E, args, kwargs, node, how):
         return E.alloc(HObj(None, {'groups': [VC(g) for g in groups], 'spans': [(VC(a), VC(b)) for a, b in spans],
                                    'text': text}, name='match'))
     s = E.as_z3_str(text)
-    rz = regex_to_z3(pat.pattern, pat.flags)
+    abstract = pat.pattern == ABSTRACT_TAG_MATCHER
+    rz = None if abstract else regex_to_z3(pat.pattern, pat.flags)
     E.lib_used.add('re %s on symbolic text: None, or pos <= start <= end <= len(text), group(0) == text[start:end]%s '
                    '(generic contract; what the pattern accepts is not modelled)' % (how, ', start == pos' if how == 'match' else ''))
     if E.decide(2, 're %s fails' % how) == 1:
@@ -789,6 +793,12 @@ def _re_exec(E, args, kwargs, node, how):
     E.assume(z3.And(p <= st, st <= en, en <= z3.Length(s)))
     if how == 'match':
         E.assume(st == p)
+    if abstract:
+        # contract M of a tag matcher (proved for dtml_re_class.search; String.tagre starts with the literal '%('):
+        # a match is never empty
+        E.assume(en > st)
+        grp = [VS(z3.SubString(s, st, en - st))] + [VS(z3.String(E.fresh('grp'))) for _ in range(3)]
+        return E.alloc(HObj(None, {'groups': grp, 'spans': [(VI(st), VI(en))] * 4, 'text': text}, name='match'))
     import re as _re_
     n = _re_.compile(pat.pattern, pat.flags).groups
     if rz is not None:
@@ -807,6 +817,10 @@ def match_group(E, obj, idxs):
     for i in (idxs or [VC(0)]):
         if not isinstance(i, VC):
             raise Unsupported('match.group(symbolic)')
+        if isinstance(i.v, str):
+            # a named group: some part of the text (not modelled further)
+            out.append(VS(z3.String('group_%s_of_match%d' % (i.v, obj.addr))))
+            continue
         try:
             out.append(h.fields['groups'][i.v])
         except IndexError:
